@@ -166,9 +166,10 @@ func (c *config) WriteTCPServicesMaps() error {
 // config file. This func doesn't change model state, except the
 // link to the frontend maps.
 func (c *config) WriteFrontendMaps() error {
-	if c.frontend.Maps != nil && !c.hosts.Changed() {
+	if c.frontend.Maps != nil && !c.hosts.Changed() && !c.backends.Changed() {
 		// TODO Maps!=nil just to preserve the current behavior. Check if this can be removed.
-		// hosts are clean, maps are updated
+		// hosts are clean, maps are updated. Backends should be clean as well
+		// because the ssl redirect of the root path is read from the backend.
 		return nil
 	}
 	mapBuilder := hatypes.CreateMaps(c.global.MatchOrder)
